@@ -989,7 +989,19 @@ func genUnstake(g *G) *Op {
 	asset := []string{ptypes.Elys, ptypes.Eden, ptypes.EdenB}[g.Pick("unstakeasset", 3)]
 	var amt sdkmath.Int
 	if asset == ptypes.Elys {
-		amt = g.ModestAmount("unstake", sdkmath.NewInt(5_000_000_000))
+		// sized by what the account really has delegated (partial unstakes in several blocks are the
+		// interesting ones: each burns EdenB through the commitment hook and re-checkpoints the delegation)
+		ref := sdkmath.NewInt(5_000_000_000)
+		if val, err := sdk.ValAddressFromBech32(g.W.ValAddr); err == nil {
+			if d, err := g.W.App.StakingKeeper.GetDelegation(g.W.ReadCtx(), u.Addr, val); err == nil && d.Shares.IsPositive() {
+				ref = d.Shares.TruncateInt()
+			}
+		}
+		if g.Bool("unstake/part") {
+			amt = maxInt(ref.MulRaw(int64(g.Int("unstake/pct", 1, 60))).QuoRaw(100), sdkmath.OneInt())
+		} else {
+			amt = g.Amount("unstake", ref)
+		}
 	} else {
 		amt = g.Amount("unstake", g.S.CommittedOf(u.Addr.String(), asset))
 	}
